@@ -21,6 +21,12 @@ STRENGTH = {
  "C12-3": "standard-conformant ATS variants (TL only, T0 only, without TA, ...) with the default frame size FSC 32 added to checks/c12.py",
  "C17-3": "operation 'resolve2' (two threads resolve different uncached names at the same time) added to checks/c17.py",
  "C19-3": "phase 'dep' (NFC-DEP layer with DID/NAD, frame-filling payloads) added to checks/c19.py",
+ "C03-4": "format() is judged against the reserved ranges of the layout it creates, and what it wrote is judged even when it raises (checks/c03.py)",
+ "C14-4": "half of the outbound scenarios run under a host link fault, so that recovery frames (cancel ACK) are validated too (checks/c14.py)",
+ "C15-4": "the driver search and initialisation inside open() (device.connect) counts as a driver call (dsim/w4.py)",
+ "C16-4": "Type 2 Tags with more than one sector (SECTOR SELECT) in 30% of the t2 scenarios; faults on a lost packet 1 must be absorbed (checks/c16.py)",
+ "C18-4": "the time seams raise ValueError for a negative sleep like time.sleep() does (dsim/kernel.py, dsim/w1/device.py)",
+ "C20-4": "the NTAG21x model answers a wrong password with a NAK code drawn per run (0h, 1h, 4h, 5h) and a wrong password whose PACK ends in that code is tried (dsim/w1/t2t.py, checks/c20.py)",
 }
 rows = []
 for d in sorted(glob.glob(os.path.join(HERE, "seeded", "*", ""))):
